@@ -19,6 +19,9 @@ func (P *Program) bigEval(fn *ssa.Function) *BigEval {
 	if bindStructParams {
 		key += "|S"
 	}
+	if walkStartMax != 0 {
+		key += "|W"
+	}
 	if be, ok := bigEvalCache[key]; ok {
 		return be
 	}
